@@ -212,8 +212,11 @@ fn judge(end: &EndState, log: &[Rec]) -> Verdict {
     }
     // (4) monotone: once observed set (or the winning set returned), later operations observe it
     for a in log {
-        let a_observed = matches!(a.seen, Seen::Got(Some(_)) | Seen::IsSet(true))
-            || matches!(a.op, HOp::Set(v) if Some(v) == winner_id);
+        // a returned `set` counts as "the set has completed" only if it is known to be the winning
+        // one: its value is the stored value and no other set supplied the same value (a losing set
+        // may return while the winner is still initialising, and reads may then still say 'not set')
+        let a_is_the_winner = matches!(a.op, HOp::Set(v) if Some(v) == winner_id && sets.iter().filter(|s| s.op == HOp::Set(v)).count() == 1);
+        let a_observed = matches!(a.seen, Seen::Got(Some(_)) | Seen::IsSet(true)) || a_is_the_winner;
         if !a_observed {
             continue;
         }
